@@ -149,7 +149,12 @@ func (w *requestWriter) encodeHeaders(req *http.Request, addGzipHeader bool, tra
 		// followed by the query production (see Sections 3.3 and 3.4 of
 		// [RFC3986]).
 		f(":authority", host)
-		f(":method", req.Method)
+		// For client requests, an empty Method means GET (see http.Request).
+		method := req.Method
+		if method == "" {
+			method = http.MethodGet
+		}
+		f(":method", method)
 		if req.Method != http.MethodConnect || isExtendedConnect {
 			f(":path", path)
 			f(":scheme", req.URL.Scheme)
